@@ -220,6 +220,11 @@ class VarMachine(Machine):
         for r, c, mask in held:
             if den(r) != mask:
                 raise Violation('a held reference changed denotation (by name)', ref=r)
+        self.step_invariant(st)
+
+    def step_invariant(self, st):
+        for r, c, mask in st.h['held']:
+            O.observe_queries(st.m, self.U, r, mask)
 
     def key(self, st):
         return S.key(st.m, (st.h['order'], sorted(st.h['held'])))
